@@ -18,8 +18,9 @@ MODELS = {
     "os2_max1": {"Pts": ("<-", "Pts_os2_cap1"), "EvMax": ("<-", "EvMax_os1")},
     "mixed":    {"Pts": ("<-", "Pts_mixed"),    "EvMax": ("<-", "EvMax_mixed")},
     "os_big":   {"Pts": ("<-", "Pts_os_big"),   "EvMax": ("<-", "EvMax_mixed")},
+    "mixed_pk": {"Pts": ("<-", "Pts_mixed_pk"), "EvMax": ("<-", "EvMax_mixed")},
 }
-GROUPS_QUICK = [("os2_cap1", 1), ("os2_cap2", 0), ("os2_max1", -1), ("mixed", 1)]
+GROUPS_QUICK = [("os2_cap1", 1), ("os2_cap2", 0), ("os2_max1", -1), ("mixed", 1), ("mixed_pk", 1)]
 GROUPS_THOROUGH = GROUPS_QUICK + [("os2_cap1", -1), ("os2_cap1", 0), ("os2_cap2", 1), ("mixed", 0),
                                   ("os2_max1", 1)]
 
@@ -161,6 +162,14 @@ def covered(tier, wd, devs_open, alpha, groups, depth):
         vlib.write_cfg(cfg, "Spec", c, ["ExportAll"], view="CoverView")
         hists, n = vlib.cover("MC_O_events.tla", cfg, workers=8)
         pairs += n
+        cap = 6000 if tier == "quick" else 40000
+        if len(hists) > cap:
+            # very large covers are replayed as a seeded sample; the short behaviours (first reach of most abstract
+            # transitions) are all kept
+            short = [h for h in hists if len(h) <= 4]
+            rest = [h for h in hists if len(h) > 4]
+            rnd = random.Random(vlib.seed() * 31 + len(hists))
+            hists = short + rnd.sample(rest, min(len(rest), max(0, cap - len(short))))
         for i, h in enumerate(hists):
             out.append({"id": "cov_%s_%s_r%d_%d" % (alpha, model, retries, i), "model": model,
                         "retries": retries, "hist": h})
@@ -338,7 +347,8 @@ def run(prop, tier, replay=None):
         "samples": samples,
         "evaluations": len(scen), "distinct_nontrivial": distinct,
         "rule": "scenarios = committed witnesses + abstract-transition cover (TLC breadth-first under the CoverView "
-                "abstraction: one behaviour per reachable (abstract state, input) pair, maximal histories) + TLC -simulate "
+                "abstraction: one behaviour per reachable (abstract source state, input kind, abstract target state) triple, maximal "
+                "histories; very large covers are replayed as a seeded sample that keeps all short behaviours) + TLC -simulate "
                 "behaviours of Outstation.tla (+ in thorough: TLC counter-examples of the as-built spec), each executed on "
                 "the production stack; distinct = distinct abstract input sequences of length >= 3",
         "design_runs": design["runs"], "asbuilt_runs": wit_runs,
